@@ -112,6 +112,14 @@ func (h *Hist) afterStep() {
 	if h.stop {
 		return
 	}
+	if len(h.W.Hangs) > 0 {
+		// whatever property the history is checking: an entry point that never returns is a violation
+		last := ""
+		if len(h.Ops) > 0 {
+			last = h.Ops[len(h.Ops)-1]
+		}
+		h.T.Fatalf("VKEY[C18/entry-point-never-returned] a call into the node did not return within %v (history so far ends with %q)\n%s\n-- goroutines --\n%s", sim.StepWatchdog, last, h.dump(), h.W.Hangs[0])
+	}
 	for _, m := range h.monitors {
 		m(h)
 		if h.stop {
